@@ -100,6 +100,7 @@ function dump(o) {
   }
   var ld = Object.getOwnPropertyDescriptor(o, 'length');
   BUF[0] = ld && typeof ld.value === 'number' && ld.value >= 0 && Math.floor(ld.value) === ld.value ? ld.value : 999998;
+  if (ld && keys.length < 200) { var all = Object.getOwnPropertyDescriptors(o); if (!all.length || all.length.value !== ld.value) BUF[0] = 999996; }
   BUF[1] = ld && ld.writable ? 1 : 0; BUF[2] = Object.isExtensible(o) ? 1 : 0; BUF[3] = nEls;
   return Array.from(BUF.subarray(0, BN));
 }
@@ -142,6 +143,7 @@ var H = {
   },
   del: function (a, op) { if (op.r) return Reflect.deleteProperty(a, op.k); delete a[op.k]; },
   noop: function (a) {},
+  nullproto: function (a) { Object.setPrototypeOf(a, null); },
   bulk: function (a, op) { for (var i = 0; i < op.n; i++) a[op.k + i] = (op.k + i) % 40 + 1; },
   setlenre: function (a, op) {
     var o = { valueOf: function () {
@@ -518,6 +520,8 @@ func opTerm(op Op, extra string) string {
 		return fmt.Sprintf("OSetLenRe %s %d %d %d", b(op.R), op.K, op.F, op.X)
 	case "gotrunc":
 		return fmt.Sprintf("OGoTrunc %d", op.K)
+	case "nullproto":
+		return "ONullProto"
 	case "noop":
 		return "OToggle"
 	}
@@ -605,7 +609,7 @@ func (vr *variant) exec(op Op, kind int) (resT, opT, dumpT string) {
 				resT = fmt.Sprintf("RV %d", num(val)) // encoded by venc in the prelude
 			case "has", "includes":
 				resT = fmt.Sprintf("RB %s", vh.CoqBool(val == true))
-			case "freeze", "seal", "prevent", "proto", "noop", "bulk", "gotrunc":
+			case "freeze", "seal", "prevent", "proto", "noop", "bulk", "gotrunc", "nullproto":
 				resT = "RU"
 			case "push", "unshift":
 				resT = fmt.Sprintf("RV %d", num(val))
@@ -696,6 +700,7 @@ func runCase(c Case) vh.Record {
 	var opsN, opsT, obsN, obsT, human []string
 	nontrivial := false
 	sawSortRand := false
+	nullProto := false
 	for i, op := range c.Ops {
 		if op.Rl {
 			// relative keys / lengths are resolved against the current length when the op runs
@@ -709,6 +714,15 @@ func runCase(c Case) vh.Record {
 			op.L = nil
 		}
 		if c.Kind == 1 && (op.O == "deflen" || op.O == "export" || op.O == "concat" || op.O == "concatv" || (op.O == "setlen" && op.Inv)) {
+			continue
+		}
+		if op.O == "nullproto" {
+			if c.Kind != 0 {
+				continue
+			}
+			nullProto = true
+		}
+		if nullProto && op.O == "proto" {
 			continue
 		}
 		if c.Kind != 0 && (op.O == "bulk" || op.O == "setlenre") {
@@ -962,6 +976,9 @@ func genOp(r *vh.Rng, curLen int, allowSortRand bool) Op {
 	case 8:
 		return Op{O: "seal"}
 	case 9:
+		if r.Chance(40) {
+			return Op{O: "nullproto"}
+		}
 		return Op{O: "prevent"}
 	case 10:
 		op := Op{O: "proto", K: uint64(r.Intn(12))}
